@@ -1055,6 +1055,21 @@ def fam_nearparallel(ctx):
                 if not abs(float(d) - h) <= 1e-9 * max(1.0, h, float(np.abs(P2).max())):
                     ctx.fail(cid, 'Plucker.distance', 'mismatch', dict(p, order=lab), 'lines %g rad from parallel, %g apart: distance() = %.12g' % (th, h, float(d)))
                     break
+    # directions a few 1e-8 rad apart are still not parallel (for unit-size directions the library's own threshold is a few eps)
+    for th, ln in itertools.product((3e-8, 1e-7, 1e-6, 1e-4), (1.0, 1e-3, 1e3)):
+        u2 = unit(math.cos(th) * u1 + math.sin(th) * b)
+        cid = 'C19/nearparallel/isparallel/th=%g/len=%g' % (th, ln)
+        if not ctx.want(cid):
+            continue
+        ctx.case(cid, key=cid)
+        L1, L2 = Plucker.PointDir(np.array([0.5, -1.0, 2.0]), ln * u1), Plucker.PointDir(np.array([0.5, -1.0, 2.0]) + 0.3 * n, u2)
+        p = dict(method='isparallel', rel='skew', th=th, what='near-parallel')
+        for nm_, f in (('isparallel', lambda: L1.isparallel(L2)), ('|', lambda: L1 | L2), ('isparallel/21', lambda: L2.isparallel(L1))):
+            ok, r = call(f)
+            if not ok:
+                ctx.fail(cid, 'Plucker.isparallel', 'raises:' + type(r).__name__, p, '%r' % (r,))
+            elif asbool(r) is not False:
+                ctx.fail(cid, 'Plucker.isparallel', 'mismatch', dict(p, op=nm_), 'lines %g rad apart are reported parallel (%s)' % (th, nm_))
     L = Plucker.PointDir(np.array([0.5, -1.0, 2.0]), u1)
     for lam, off in itertools.product((0.7, 30.0, 300.0), (0.0, 1e-8, 1e-7, 1e-5, 1e-3)):
         cid = 'C19/nearline/lam=%g/off=%g' % (lam, off)
